@@ -146,6 +146,7 @@ def run(ctx):
     rule7(ctx, prog, flows, root)
     rule8(ctx, prog, flows, root)
     rule10(ctx, prog, flows, root)
+    rule11(ctx, prog, flows, root)
     from props.c08 import relaxation_discipline
 
     relaxation_discipline(ctx, prog, flows, "R-C06-9", {"closeness::single_source_shortest_path_length_weighted": "closeness"})
@@ -382,3 +383,49 @@ def rule10(ctx, prog, flows, root):
             ctx.require(ok, "R-C06-10", "reached-filter|%s" % sfx.split("::")[-1], "%s keeps exactly the entries whose distance is not f64::MAX" % sfx.split("::")[-1],
                         "the result filter of %s is true under %s: it keeps the UNREACHED nodes (distance f64::MAX) or drops reached ones, so r and the distance sum are those of the wrong node set" % (sfx, [sorted(("%s%s(%s)" % ("" if pol else "!", rel, ",".join(sorted(ops)))) for (rel, pol, ops) in pth) for pth in paths]), loc_str(cb.span))
     ctx.counters["closeness_small_decisions"] = n
+
+
+def rule11(ctx, prog, flows, root):
+    """R-C06-11: "a value for every node" -- every Ok return of closeness_centrality lies behind the per-node computation: the
+    loop (serial) or the mapped closure (parallel) in which get_node_centrality is called.  With the headers of those
+    constructs removed from the CFG no Ok construction may remain reachable: an early `return Ok(map)` for a degenerate
+    graph hands back a map with no entry at all, where C06 requires an entry (0) for every node."""
+    from engines import result_ctor_sites
+    from hashord import natural_loop_blocks
+
+    ctx.rule("R-C06-11", "every Ok return of closeness_centrality is reached only through the per-node loop / mapped closure that calls the closeness formula")
+    anchors = set()
+    loops = root_loops(root)
+    for t in root.calls():
+        if t.callee and t.callee.short.endswith("closeness::get_node_centrality"):
+            inner = [(h, lb) for (h, lb) in loops if t.bb in lb]
+            if inner:
+                anchors.add(min(inner, key=lambda x: len(x[1]))[0])
+    clos = [c for c in prog.closures_of(root.path) if any(t.callee and t.callee.short.endswith("closeness::get_node_centrality") for t in c.calls())]
+    if clos:
+        for t in root.calls():
+            if t.callee and t.callee.short.split("::")[-1] in ("map", "for_each", "map_init", "fold") and any(a.place is not None and "{closure" in (a.place.ty or "") for a in t.args):
+                anchors.add(t.bb)
+    if not anchors:
+        ctx.anchor_lost("R-C06-11", "a loop or mapped closure in closeness_centrality that calls get_node_centrality")
+        return
+    oks = result_ctor_sites(root, "Ok")
+    reach = root.reachable_from(0, avoid=tuple(anchors)) | {0}
+    n = 0
+    for (bb, st) in oks:
+        n += 1
+        ctx.require(bb not in reach, "R-C06-11", "ok-behind-per-node-computation|%d" % n, "the Ok return is reached only through the per-node computation",
+                    "closeness_centrality can return Ok without running the per-node computation (an early return): the map handed back has no entry for the nodes, where every node must get a value (0 when nothing else reaches it)", loc_str(st.span))
+    ctx.floor("R-C06-11", "ok_returns", n, 1)
+
+
+def root_loops(body):
+    """[(header, blocks)] natural loops of the body"""
+    from hashord import natural_loop_blocks
+
+    out = []
+    for blk in body.normal_blocks():
+        for y in body.succ(blk.i):
+            if body.dominates(y, blk.i):
+                out.append((y, natural_loop_blocks(body, y)))
+    return out
